@@ -139,6 +139,13 @@ func (e *Engine) callStatic(st *State, fr *Frame, callee *ssa.Function, env TEnv
 	}
 	c := e.contractFor(callee)
 	e.logCall(st, fr, callee, args)
+	if e.rootC != nil && len(e.rootC.Extra["logcalls"]) > 0 {
+		k0 := k
+		k = func(st *State, fr *Frame, res Val) {
+			e.logResult(st, callee, res)
+			k0(st, fr, res)
+		}
+	}
 	if c != nil && e.inlineCall(callee) {
 		c = nil
 	}
@@ -260,7 +267,8 @@ func (e *Engine) callContract(st *State, fr *Frame, callee *ssa.Function, c *Con
 		}
 	}
 	isAction := e.atomicMode() && c.Trusted
-	if isAction {
+	if isAction || (e.atomicMode() && c.Mode == "atomic") {
+		// other goroutines act before the callee's (first) action
 		e.interfere(st)
 	}
 	// ownership: structures passed to `owns` parameters are folded first (their views become terms)
@@ -496,7 +504,10 @@ func (e *Engine) getLog(st *State, name string, args []Val) *CallLog {
 // appendLog records a callback invocation in its ghost sequence.
 func (e *Engine) appendLog(st *State, name string, args []Val, res Val) {
 	l := e.getLog(st, name, args)
-	nl := &CallLog{Len: e.nameTerm(st, "loglen", Add(l.Len, IntLit(1))), ArgT: l.ArgT}
+	nl := &CallLog{Len: e.nameTerm(st, "loglen", Add(l.Len, IntLit(1))), ArgT: l.ArgT, Succ: l.Succ}
+	if len(res.L) > 0 && res.L[0].Sort == SBool {
+		nl.Succ = Add(e.logSucc(l), Ite(res.L[0], IntLit(1), IntLit(0)))
+	}
 	for ai, a := range args {
 		var arrs []Term
 		for li := range a.L {
@@ -505,6 +516,31 @@ func (e *Engine) appendLog(st *State, name string, args []Val, res Val) {
 		nl.Args = append(nl.Args, arrs)
 	}
 	st.logs[name] = nl
+}
+
+func (e *Engine) logSucc(l *CallLog) Term {
+	if l == nil || l.Succ.S == "" {
+		return IntLit(0)
+	}
+	return l.Succ
+}
+
+// logResult: a logged static call (`opt logcalls`) returned: count it when its first result is true.
+func (e *Engine) logResult(st *State, callee *ssa.Function, res Val) {
+	if e.rootC == nil || len(res.L) == 0 || res.L[0].Sort != SBool {
+		return
+	}
+	for _, l := range e.rootC.Extra["logcalls"] {
+		for _, n := range strings.Fields(l) {
+			if n == shortFuncName(callee) {
+				if cl, ok := st.logs[n]; ok {
+					nl := *cl
+					nl.Succ = Add(e.logSucc(cl), Ite(res.L[0], IntLit(1), IntLit(0)))
+					st.logs[n] = &nl
+				}
+			}
+		}
+	}
 }
 
 func (e *Engine) logLen(st *State, name string) Term {
